@@ -22,7 +22,7 @@ def noshock_family(tier):
     for r in range(1, max_rank + 1):
         for seg in (False, True):
             if seg and r > 3:
-                continue  # rank 4 with segments: the `attained` VC needs > 20 s (not registered; DESIGN 5)
+                continue  # rank 4 with segments: the `attained` VC is not stable within budget (not registered; DESIGN 5)
             first = 1 if seg else 0  # with segments, axis 0 is the joint axis of restricted variables
             cands = [None]
             for m in range(1, r - first + 1):
